@@ -58,6 +58,10 @@ def configs(tier, seed):
     if tier == 'thorough':
         out.append(dict(layer='j2', biort='near_sym_a', qshift='qshift_a', magbias=0.01, colour=True, H=8, W=8, C=3, mode='symmetric'))
         out.append(dict(layer='j2', biort='near_sym_a', qshift='qshift_a', magbias=1.0, colour=False, H=6, W=7, C=1, mode='symmetric'))
+    for extra in (dict(reuse=True), dict(twice=True)):
+        out.append(dict(layer='j1', biort='near_sym_a', magbias=0.01, colour=False, H=4, W=4, C=2, mode='symmetric', **extra))
+        out.append(dict(layer='j1', biort='near_sym_b_bp', magbias=0.01, colour=True, H=4, W=4, C=3, mode='symmetric', **extra))
+        out.append(dict(layer='j2', biort='near_sym_a', qshift='qshift_a', magbias=0.01, colour=False, H=8, W=8, C=1, mode='symmetric', **extra))
     out.append(dict(layer='mag', magbias=0.01)); out.append(dict(layer='mag', magbias=1.0))
     return out
 
@@ -74,7 +78,15 @@ def _run(pw, cfg, x):
     if cfg['layer'] == 'mag':
         f = pw.scatternet.lowlevel.SmoothMagFn
         return f.apply(x[0], x[1], cfg['magbias'])
-    return _layer(pw, cfg)(x)
+    layer = _layer(pw, cfg)
+    Z = layer(x)
+    if cfg.get('reuse'):
+        # the same layer scatters another image (other size) before the first result is back-propagated
+        from harness import dwtlib as D
+        tt = D.torch_of(pw)
+        x2 = tt.ones(1, cfg['C'], cfg['H'] + (8 if cfg['layer'] == 'j2' else 2), cfg['W'], dtype=x.dtype) * 0.5
+        layer(x2.requires_grad_(True))
+    return Z
 
 
 def _in_shape(cfg):
@@ -111,6 +123,8 @@ def _run_path(res, cfg):
                 ga[:, cfg['C']:] = P.ZERO
                 g = T.Tensor(ga, T.float64)
             bo = core.outcome(lambda: AG.backprop([Z], [g]))
+            if cfg.get('twice') and bo[0] == 'ok':
+                bo = core.outcome(lambda: AG.backprop([Z], [g]))       # a second pass through the same graph (retain_graph=True)
     res.symexec_s = time.time() - t0
     res.funcs = sorted(T.STATE.funcs_entered)
     for o in (so, bo):
@@ -127,7 +141,9 @@ def _run_path(res, cfg):
     gv = rng.uniform(-1, 1, size=tuple(Z.shape))
     if cfg.get('low_only'):
         gv[:, cfg['C']:] = 0.0
-    rgo = core.outcome(lambda: rt.autograd.grad([ro[1]], [xr], [rt.tensor(gv)], allow_unused=True)[0])
+    rgo = core.outcome(lambda: rt.autograd.grad([ro[1]], [xr], [rt.tensor(gv)], allow_unused=True, retain_graph=bool(cfg.get('twice')))[0])
+    if cfg.get('twice') and rgo[0] == 'ok':
+        rgo = core.outcome(lambda: rt.autograd.grad([ro[1]], [xr], [rt.tensor(gv)], allow_unused=True)[0])
     if bo[0] != rgo[0]:
         res.status = 'error'; res.trace = 'backward outcome differs: tape %r real %r' % (bo[:3], rgo[:3]); return res
     if bo[0] == 'raise':
